@@ -246,6 +246,59 @@ def compare(v, perm, exp, obs):
             break
 
 
+def ident_rep(v):
+    """identical-goals variant: goal index -> index of the first step of the scenario that is the same catalogue step, for the
+    scenarios that post the same freeze/2 step twice (and use no when/2); None if the scenario has no such pair"""
+    q, kinds = v["q"], v["kinds"]
+    if "when" in kinds:
+        return None
+    rep = {i: min(j for j in range(1, len(q) + 1) if q[j - 1] == q[i - 1]) for i in range(1, len(q) + 1)}
+    if not any(kinds[i - 1] == "freeze" and rep[i] != i for i in rep):
+        return None
+    return rep
+
+
+def ident_query(v, perm, rep):
+    qt = query_text(v, perm)
+    for i in sorted(rep, reverse=True):
+        if rep[i] != i and v["kinds"][i - 1] == "freeze":
+            if "'log'('g%d')" % i not in qt:
+                raise common.ToolError("goal token g%d not found in %s" % (i, qt))
+            qt = qt.replace("'log'('g%d')" % i, "'log'('g%d')" % rep[i])
+    return qt
+
+
+def compare_ident(v, perm, exp, obs, rep):
+    """the same scenario with IDENTICAL goal terms in the repeated freeze/2 steps: every posted goal still runs exactly once,
+    so the number of log entries per step (and after every grounding) is that of the distinguishable version"""
+    if obs["kind"] in ("panic", "other"):
+        yield ("abnormal", None, str(obs.get("what")))
+        return
+    if not exp["sat"] or obs["kind"] == "fail":
+        if exp["sat"] != (obs["kind"] != "fail"):
+            yield ("ident-outcome", None, "satisfiable=%s but the query %s" % (exp["sat"], obs["kind"]))
+        return
+    segs = [[] for _ in perm]
+    cur = 0
+    for kind, i in obs["log"]:
+        if kind == 'm':
+            cur = i
+        elif kind == 'g' and cur < len(perm):
+            segs[cur].append(i)
+    want = [sorted(rep[g] for g in sg) for sg in exp["segs"]]
+    got = [sorted(sg) for sg in segs]
+    if want != got:
+        yield ("ident-wakeups", None, "goals run per step: expected %s got %s" % (want, got))
+    se = set(exp["sols"])
+    wsusp = sorted(rep[g] for g in exp["susp"])
+    for code, ids in obs["gr"]:
+        if code in se:
+            ran = sorted(i for k, i in ids if k == 'g')
+            if ran != wsusp:
+                yield ("ident-after-grounding", None, "after grounding %d: expected %s got %s" % (code, wsusp, ran))
+                break
+
+
 def signature(v, perm, exp, kind, g):
     order = ", ".join(terms.tla_text(v["goals"][s - 1]) for s in perm)
     if g is None:
@@ -284,7 +337,11 @@ def run(tier):
         if len(v["table"]) != 2 ** len(v["q"]):
             raise common.ToolError("incomplete subset table in vector %r" % (v["q"],))
         for perm in orders(v["q"]):
-            cases.append((vi, perm, query_text(v, perm)))
+            cases.append((vi, perm, query_text(v, perm), None))
+        rep_i = ident_rep(v)
+        if rep_i:
+            for perm in orders(v["q"]):
+                cases.append((vi, perm, ident_query(v, perm, rep_i), rep_i))
     B = 400
     jobs = []
     for bi in range(0, len(cases), B):
@@ -307,10 +364,16 @@ def run(tier):
         else:
             outs = r["res"][1:]
         for k, c in enumerate(cases[bi:bi + B]):
-            vi, perm, qt = c
+            vi, perm, qt, rep_i = c
             v = vecs[vi]
             exp = expectation(v, perm)
             obs = observe(outs[k])
+            if rep_i:
+                rep.case(("identical-goals",) + tuple(v["kinds"][x - 1] for x in perm))
+                for kind, g, msg in compare_ident(v, perm, exp, obs, rep_i):
+                    rep.violation(signature(v, perm, exp, kind, g),
+                                  {"vector": v, "perm": list(perm), "query": qt, "kind": kind, "message": msg, "observed": outs[k]})
+                continue
             rep.case(coverage_class(v, perm, exp))
             if exp["sat"]:
                 nsat += 1
